@@ -86,6 +86,7 @@ def run(src, program, cls, tags, variant=None, domain=None):
     for ob in eng.obls:
         if not ob.tags:
             ob.tags = tuple(tags)
+        ob.canonical_traits = (program == 'canonical')
         ob.hyps = list(ob.hyps) + trait_instances(ob)
     return eng.obls, None, len(finals)
 
@@ -119,10 +120,6 @@ def trait_instances(ob):
       sized(sc)  Z_ok(sc,..) => B_len == Z_val for every successful build and P_end - pos == Z_val for every successful parse"""
     apps = find_apps(list(ob.hyps) + [ob.goal], ('B_ok', 'P_ok', 'Z_ok', 'pyeq'))
     out = []
-    for e in apps['pyeq'].values():
-        if not has_bound_var(e):
-            # == is reflexive (lemma pyeq_reflexive, proved by induction over the byte comparison): ground instance
-            out.append(t.implies(t.eq(e.args[0], e.args[1]), e))
     i = t.var('rt!', t.INT)
     for b in apps['B_ok'].values():
         if has_bound_var(b):
@@ -145,6 +142,44 @@ def trait_instances(ob):
         for z in apps['Z_ok'].values():
             if not has_bound_var(z) and z.args[0].smt() == sc.smt():
                 out.append(t.implies(t.and_(z, b), t.eq(n, t.app('Z_val', t.INT, *z.args))))
+    if getattr(ob, 'canonical_traits', False):
+        # induction hypotheses of C02 about sub-constructs (only for the canonical programs):
+        #   closure    a value a sub-construct parsed is accepted by its build, which returns an equal value
+        #   congruence building equal values gives the same outcome and the same bytes
+        bs = [b for b in apps['B_ok'].values() if not has_bound_var(b)]
+        ps_ = [p for p in apps['P_ok'].values() if not has_bound_var(p)]
+        for b in bs:
+            for p in ps_:
+                if p.args[0].smt() != b.args[0].smt():
+                    continue
+                pv = t.app('P_val', t.VAL, *p.args)
+                used = t.sub(t.app('P_end', t.INT, *p.args), p.args[3])
+                out.append(t.implies(t.and_(p, t.or_(t.eq(b.args[1], pv), t.app('pyeq', t.BOOL, b.args[1], pv))),
+                                     t.and_(b, t.app('pyeq', t.BOOL, t.app('B_ret', t.VAL, *b.args), b.args[1]), t.le(t.app('B_len', t.INT, *b.args), used))))
+        # length / count fields (value-faithful integer fields): the field that encoded the parsed length n also encodes every
+        # smaller non-negative length, in no more bytes (downward closed and monotone - true of every integer wire format)
+        for b in bs:
+            for p in ps_:
+                if p.args[0].smt() != b.args[0].smt():
+                    continue
+                pv = t.app('P_val', t.VAL, *p.args)
+                b2 = t.app('B_ok', t.BOOL, b.args[0], pv, *b.args[2:])
+                n2 = t.app('B_len', t.INT, b.args[0], pv, *b.args[2:])
+                small = t.and_(t.app('isint', t.BOOL, b.args[1]), t.app('isint', t.BOOL, pv), t.le(t.ZERO, t.app('toint', t.INT, b.args[1])),
+                               t.le(t.app('toint', t.INT, b.args[1]), t.app('toint', t.INT, pv)))
+                out.append(t.implies(t.and_(t.app('sc_faithful', t.BOOL, b.args[0]), p),
+                                     t.and_(b2, t.app('isint', t.BOOL, pv), t.le(n2, t.sub(t.app('P_end', t.INT, *p.args), p.args[3])),
+                                            t.implies(small, t.and_(b, t.le(t.app('B_len', t.INT, *b.args), n2))))))
+        for x in range(len(bs)):
+            for y in range(x + 1, len(bs)):
+                b1, b2 = bs[x], bs[y]
+                if b1.args[0].smt() != b2.args[0].smt():
+                    continue
+                n1, n2 = t.app('B_len', t.INT, *b1.args), t.app('B_len', t.INT, *b2.args)
+                W1, W2 = t.app('B_bytes', t.ARR, *b1.args), t.app('B_bytes', t.ARR, *b2.args)
+                same = t.forall([i], t.implies(t.and_(t.le(t.ZERO, i), t.lt(i, n1)), t.eq(t.select(W1, i), t.select(W2, i))), pats=[[t.select(W1, i)], [t.select(W2, i)]])
+                out.append(t.implies(t.or_(t.eq(b1.args[1], b2.args[1]), t.app('pyeq', t.BOOL, b1.args[1], b2.args[1])),
+                                     t.and_(t.eq(b1, b2), t.implies(b1, t.and_(t.eq(n1, n2), same, t.app('pyeq', t.BOOL, t.app('B_ret', t.VAL, *b1.args), t.app('B_ret', t.VAL, *b2.args)))))))
     zs = [z for z in apps['Z_ok'].values() if not has_bound_var(z)]
     for a in zs:
         for b2 in zs:
@@ -158,4 +193,38 @@ def trait_instances(ob):
         for p in apps['P_ok'].values():
             if not has_bound_var(p) and p.args[0].smt() == z.args[0].smt():
                 out.append(t.implies(t.and_(z, p), t.eq(t.sub(t.app('P_end', t.INT, *p.args), p.args[3]), t.app('Z_val', t.INT, *z.args))))
+    # a successful sequential parse ends between its start and the end of the data it was given
+    for p in apps['P_ok'].values():
+        if not has_bound_var(p):
+            pe = t.app('P_end', t.INT, *p.args)
+            out.append(t.implies(p, t.and_(t.le(p.args[3], pe), t.le(pe, t.imax(p.args[2], p.args[3])))))
+    # context agreement for parameter expressions: a context expression of the construct evaluates to the same value (and fails
+    # or not alike) in the scope before and after its sub-constructs ran (it does not read what they wrote)
+    evs = find_apps(list(ob.hyps) + [ob.goal], ('ev_int', 'ev_val', 'ev_raises'))
+    for fn, sort in (('ev_int', t.INT), ('ev_val', t.VAL), ('ev_raises', t.BOOL)):
+        al = [a for a in evs[fn].values() if not has_bound_var(a)]
+        for x in range(len(al)):
+            for y in range(x + 1, len(al)):
+                if al[x].args[0].smt() == al[y].args[0].smt() and al[x].args[3].smt() == al[y].args[3].smt():
+                    out.append(t.eq(al[x], al[y]))
+    eqs = [e for e in find_apps(list(ob.hyps) + [ob.goal] + out, ('pyeq',))['pyeq'].values() if not has_bound_var(e)]
+    for e in eqs:
+        # == is reflexive (lemma pyeq_reflexive, proved by induction over the byte comparison): ground instance
+        out.append(t.implies(t.eq(e.args[0], e.args[1]), e))
+    if getattr(ob, 'canonical_traits', False) and len(eqs) <= 12:
+        # == is symmetric and transitive on the modelled values (lemmas pyeq_symmetric / pyeq_transitive): ground instances
+        terms = {}
+        for e in eqs:
+            terms[e.args[0].smt()] = e.args[0]
+            terms[e.args[1].smt()] = e.args[1]
+        for e in eqs:
+            out.append(t.eq(e, t.app('pyeq', t.BOOL, e.args[1], e.args[0])))
+        for e1 in eqs:
+            for e2 in eqs:
+                if e1 is e2:
+                    continue
+                for (a, m1), (m2, c) in (((e1.args[0], e1.args[1]), (e2.args[0], e2.args[1])), ((e1.args[0], e1.args[1]), (e2.args[1], e2.args[0])),
+                                         ((e1.args[1], e1.args[0]), (e2.args[0], e2.args[1])), ((e1.args[1], e1.args[0]), (e2.args[1], e2.args[0]))):
+                    if m1.smt() == m2.smt() and a.smt() != c.smt():
+                        out.append(t.implies(t.and_(t.app('pyeq', t.BOOL, a, m1), t.app('pyeq', t.BOOL, m2, c)), t.app('pyeq', t.BOOL, a, c)))
     return out
